@@ -71,7 +71,9 @@ func (c *Ctx) Pass(rule, construct, pos, why string) {
 func (c *Ctx) PassTrivial(rule, construct, pos, why string) {
 	c.add(rule, construct, Discharged, pos, why, false)
 }
-func (c *Ctx) Fail(rule, construct, pos, why string) { c.add(rule, construct, Violated, pos, why, true) }
+func (c *Ctx) Fail(rule, construct, pos, why string) {
+	c.add(rule, construct, Violated, pos, why, true)
+}
 func (c *Ctx) Unknown(rule, construct, pos, why string) {
 	c.add(rule, construct, Undecided, pos, why, true)
 }
@@ -92,8 +94,8 @@ func (c *Ctx) Fn(name string) {
 	}
 	c.Functions[name] = true
 }
-func (c *Ctx) Doc(rule, text string)  { c.RulesDoc = append(c.RulesDoc, rule+": "+text) }
-func (c *Ctx) Assume(text string)     { c.Assumptions = append(c.Assumptions, text) }
+func (c *Ctx) Doc(rule, text string)     { c.RulesDoc = append(c.RulesDoc, rule+": "+text) }
+func (c *Ctx) Assume(text string)        { c.Assumptions = append(c.Assumptions, text) }
 func (c *Ctx) NotDecidedClause(t string) { c.NotDecided = append(c.NotDecided, t) }
 
 // ---- known findings -------------------------------------------------------------------
